@@ -26,7 +26,7 @@ Traces == ndJsonDeserialize(IOEnv.TRACE_FILE)
 
 VARIABLES tid, done
 
-ScOf(t) == [plugs |-> t.sc.plugs, wrap |-> t.sc.wrap, short |-> t.sc.short, dflt |-> t.sc.dflt, reqs |-> t.sc.reqs,
+ScOf(t) == [plugs |-> t.sc.plugs, tree |-> t.sc.tree, short |-> t.sc.short, dflt |-> t.sc.dflt, reqs |-> t.sc.reqs,
             rets |-> t.sc.rets, ca |-> t.sc.ca, kn |-> t.sc.kn, hn |-> t.sc.hn, params |-> t.sc.params, cookies |-> t.sc.cookies,
             body |-> t.sc.body]
 
